@@ -293,4 +293,95 @@ theorem second_build_does_nothing_deps (w : World) (a : InvArgs) (perms : List (
     rw [hxe1.fileInput_old f1 hfL, hpL] at hsrcf
     cases hsrcf
 
+/-- **A completed step is up to date at the next start-up** (whatever else happened in the
+    invocation - it may have failed elsewhere): if the invariant `JD` holds at the end of an
+    invocation, the remembered dependencies of finished steps are source files, and the manifest
+    loads to the same graph from the world that invocation left, then every `Done` non-phony step
+    whose named files exist is `UpToDate` in the freshly loaded environment, and its remembered
+    dependencies are sources there too. -/
+theorem next_startup_upToDate (w : World) (m : Bytes) (l : Loader) (e0 : Env) (hl : loadEnv w m = .ok (l, e0))
+    (s1 : S) (e1 : Env) (j : JD e0 s1 e1) (hsrc : GoodD s1 e1)
+    (w' : World) (hw' : w' = { fs := e1.fs, clock := e1.clock, log := e1.log })
+    (e0' : Env) (hl' : loadEnv w' m = .ok (l, e0'))
+    (b : Nat) (bm : BuildM) (hb : buildOf e0.g b = some bm) (hdoneb : s1.st b = .done)
+    (hnp : bm.cmdline.isNone = false) (hall : AllPresentD e1 bm b) :
+    buildOf e0'.g b = some bm ∧ UpToDate e0' b bm ∧ ∀ f ∈ discOf e0' b, fileInput e0'.g f = none := by
+  obtain ⟨hx0, l0⟩ := loadEnv_loaded0 w m l e0 hl
+  obtain ⟨_, hfs1, _, hlog1⟩ := loadEnv_frame w' m l e0' hl'
+  obtain ⟨hx1, l1⟩ := loadEnv_loaded0 w' m l e0' hl'
+  have hfs : e0'.fs = e1.fs := by rw [hfs1, hw']
+  have hlog : e0'.log = e1.log := by rw [hlog1, hw']
+  have hxe1 : Ext l.graph e1.g := hx0.trans j.ext
+  have hbuilds : buildOf e0'.g b = buildOf e0.g b := by rw [hx1.buildOf, hx0.buildOf]
+  have idsL : ∀ f ∈ bm.dirtying ++ bm.outs, f < l.graph.files.length := by
+    intro f hf
+    have hbl : buildOf l.graph b = some bm := by rw [← hx0.buildOf]; exact hb
+    have : GInv l.graph := by
+      unfold loadEnv at hl
+      simp only [] at hl
+      split at hl
+      · cases hl
+      · rename_i l0' hl0; cases hl; exact load_inv false _ _ _ hl0
+    apply ginv_idsOK l.graph this b bm hbl f
+    rcases List.mem_append.mp hf with h | h
+    · exact List.mem_append.mpr (Or.inl (List.mem_of_mem_take h))
+    · exact List.mem_append.mpr (Or.inr h)
+  have hname : ∀ f, f < l.graph.files.length → fileName e0'.g f = fileName e1.g f := by
+    intro f hf; rw [hx1.fileName_old f hf, hxe1.fileName_old f hf]
+  obtain ⟨r, q1, hh, hdeps⟩ := j.settled b bm hdoneb hb hnp hall
+  have hrem : Remembers e0' b r := by
+    apply l1.rem b r
+    rw [hlog, lastRec_congr l.graph e0'.g hx1.producer, ← lastRec_congr l.graph e0.g hx0.producer]
+    exact q1
+  obtain ⟨m1, m2, m3⟩ := hrem
+  have hdn : (discOf e0' b).map (fileName e0'.g) = (discOf e1 b).map (fileName e1.g) := m1.trans hdeps
+  have hold : ∀ f ∈ bm.dirtying ++ bm.outs, mtimeOf e0' f = mtimeOf e1 f := by
+    intro f hf
+    rw [mtimeOf_eq_N, mtimeOf_eq_N, hfs, hname f (idsL f hf)]
+  have hfileName_unique : ∀ f1 f2, f1 < e1.g.files.length → f2 < e1.g.files.length →
+      fileName e1.g f1 = fileName e1.g f2 → f1 = f2 := by
+    intro f1 f2 h1 h2 hn
+    have a1 : e1.g.files[f1]? = some e1.g.files[f1] := List.getElem?_eq_getElem h1
+    have a2 : e1.g.files[f2]? = some e1.g.files[f2] := List.getElem?_eq_getElem h2
+    apply j.uniq f1 f2 _ _ a1 a2
+    unfold fileName at hn; rw [a1, a2] at hn; simpa using hn
+  refine ⟨by rw [hbuilds]; exact hb, ⟨?_, ?_⟩, ?_⟩
+  · intro f hf
+    simp only [List.mem_append] at hf
+    rcases hf with (hf | hf) | hf
+    · rw [hold f (by simp [hf])]; exact hall f (by simp [hf])
+    · have hn : fileName e0'.g f ∈ (discOf e0' b).map (fileName e0'.g) := List.mem_map_of_mem hf
+      rw [hdn] at hn
+      obtain ⟨f1, hf1, hn1⟩ := List.mem_map.mp hn
+      have := hall f1 (by simp [hf1])
+      rw [mtimeOf_eq_N] at this ⊢
+      rw [hfs, ← hn1]; exact this
+    · rw [hold f (by simp [hf])]; exact hall f (by simp [hf])
+  · rw [m3, hh, manifestFs_eq_N, manifestFs_eq_N, hfs, hdn]
+    congr 2
+    · apply List.map_congr_left
+      intro f hf; exact (hname f (idsL f (by simp [hf]))).symm
+    · apply List.map_congr_left
+      intro f hf; exact (hname f (idsL f (by simp [hf]))).symm
+  · intro f hf
+    cases hp : fileInput e0'.g f with
+    | none => rfl
+    | some p =>
+      exfalso
+      have hfL : f < l.graph.files.length := by
+        by_cases h : f < l.graph.files.length
+        · exact h
+        · rw [hx1.fileInput_new f (by omega)] at hp; cases hp
+      have hpL : fileInput l.graph f = some p := by rw [← hx1.fileInput_old f hfL]; exact hp
+      have hn : fileName e0'.g f ∈ (discOf e0' b).map (fileName e0'.g) := List.mem_map_of_mem hf
+      rw [hdn, hname f hfL] at hn
+      obtain ⟨f1, hf1, hn1⟩ := List.mem_map.mp hn
+      have hfe1 : f < e1.g.files.length := Nat.lt_of_lt_of_le hfL hxe1.length_le
+      have : f1 = f := hfileName_unique f1 f (j.discIds b f1 hf1) hfe1 hn1
+      subst this
+      have hsrcf := hsrc b hdoneb f1 hf1
+      rw [hxe1.fileInput_old f1 hfL, hpL] at hsrcf
+      cases hsrcf
+
+
 end N2V.Work
